@@ -24,10 +24,10 @@ func init() {
 				Procs:    16,
 				Rule: "case = (constructor, operation history over Add/Push/Pop/PopLast/Clear); three generators: " +
 					"(a) scripted rotate-then-grow scenarios for every capacity 1..24 x every head position x {Add,Push} (seed-independent), and for every capacity 25..1400 (9000 thorough) x three head positions, continued to the next regrow, with constant-time observations on every step and the full comparison after every regrow, " +
-					"(b) exhaustive enumeration of all histories up to a length bound over {Add,Push,Pop,PopLast} for preallocated sizes 0..4, " +
-					"(c) PRNG histories of 20..300 ops with phase-switching op mixes. After EVERY op: Len, IsEmpty, Front, Slice, Each (with early stop), Peek(n) for all n in [-Len-2, Len+1]. " +
+					"and at 262143..1.2 M elements (5 M thorough), one per block; (b) exhaustive enumeration of all histories up to a length bound over {Add,Push,Pop,PopLast} for preallocated sizes 0..4, " +
+					"(c) PRNG histories of 20..300 ops with phase-switching op mixes, (d) long-lived queues: one instance carries 300 000 (1.2 M thorough) operations with its length wandering between 0 and a few hundred. After EVERY op: Len, IsEmpty, Front, Slice, Each (with early stop), Peek(n) for all n in [-Len-2, Len+1] and for offsets far out of range whose low 8..62 bits look like a valid offset. " +
 					"distinct = distinct (constructor, history) hashes; non-trivial = the history contained at least one wrap of the ring indices or a regrow while head > 0 (seen through the VerifState hook)",
-				Required:     []string{"rotate_then_grow_add", "rotate_then_grow_push", "backward_wrap_push", "forward_wrap_add", "pop_to_empty", "steps", "large_capacity_scenarios", "element_type_checks", "sparse_observation_histories", "concurrent_instance_histories"},
+				Required:     []string{"rotate_then_grow_add", "rotate_then_grow_push", "backward_wrap_push", "forward_wrap_add", "pop_to_empty", "steps", "large_capacity_scenarios", "element_type_checks", "sparse_observation_histories", "concurrent_instance_histories", "long_lived_queue_runs", "very_large_queues"},
 				Exhaustive:   true,
 				Assumptions:  []string{"reference model: Go slice with append/prepend/pop semantics", "hook queue.VerifState used for reach counters only, never for verdicts"},
 				CoverPkgs:    []string{"github.com/creachadair/mds/queue", "github.com/creachadair/mds/slice"},
@@ -179,6 +179,15 @@ func c07runMode(c *fw.Ctx, ctorSize int, ops []c07op, light, sparse bool) (nontr
 			if gok != wok || got != want {
 				fail("Peek(%d)=(%d,%v) want (%d,%v) (ref %v)", n, got, gok, want, wok, ref)
 				return false
+			}
+		}
+		if len(log)%7 == 3 {
+			// offsets far out of range whose low bits look like a valid offset
+			for _, n := range truncInts(len(ref)) {
+				if got, gok := q.Peek(n); gok || got != 0 {
+					fail("Peek(%d)=(%d,%v) want (0,false): the offset is far out of range (Len %d)", n, got, gok, len(ref))
+					return false
+				}
 			}
 		}
 		return true
@@ -586,5 +595,82 @@ func runC07(c *fw.Ctx) {
 			c.Seen(c07hash(ctor, ops))
 		}
 		idx++
+	}
+
+	// (a'') the rotate-then-grow scenario at very large capacities, one per block
+	if c.Begin(1<<23 + 100 + c.Block) {
+		caps := []int{262143, 262144, 262145, 300000, 524289, 600000, 1048577, 1200000}
+		capy := caps[c.Block%len(caps)]
+		if c.Thorough() && c.Block%4 == 1 {
+			capy = 5000000
+		}
+		h := []int{1, capy / 3, capy - 1}[c.Block%3]
+		last := []c07op{qAdd, qPush}[c.Block/8%2]
+		ops := make([]c07op, 0, 2*capy+64)
+		for i := 0; i < capy; i++ {
+			ops = append(ops, qAdd)
+		}
+		for i := 0; i < h; i++ {
+			ops = append(ops, qPop)
+		}
+		for i := 0; i < h; i++ {
+			ops = append(ops, qAdd)
+		}
+		ops = append(ops, last, qPop, qPop, qAdd, qPush, qAdd, qPopLast, qPush, qPop)
+		for i := 0; i < 40; i++ {
+			ops = append(ops, qPop, qPopLast, qAdd)
+		}
+		ctor := []int{-2, -1, capy, capy - 1}[c.Block%4]
+		okRun, pv, stack := fw.Try(func() { c07runMode(c, ctor, ops, true, true) })
+		if !okRun {
+			c.FailKind("panic", map[string]any{"ctor": ctor, "capacity": capy, "phase": "very large queue"}, "panic: %v\n%s", pv, stack)
+		}
+		c.Add("very_large_queues", 1)
+		c.Max("max:queue_elements", int64(capy))
+	}
+
+	// (d) long-lived queues: one instance carries 300 000 (1.2 M thorough)
+	// operations while its length wanders between 0 and a few hundred, so that
+	// the ring indices wrap thousands of times and anything that accumulates
+	// per call can drift.
+	for k := 0; k < c.Pick(1, 3); k++ {
+		if !c.Begin(1<<23 + k) {
+			continue
+		}
+		r := c.Rng()
+		ctor := []int{-2, -1, 0, 1, 7, 64, 100}[r.IntN(7)]
+		n := c.Pick(300000, 1200000)
+		ops := make([]c07op, 0, n)
+		length, hi := 0, 20+r.IntN(300)
+		for len(ops) < n {
+			grow := length < hi/8 || (length < hi && r.IntN(2) == 0)
+			run := 1 + r.IntN(40)
+			for j := 0; j < run && len(ops) < n; j++ {
+				var o c07op
+				switch x := r.IntN(10); {
+				case x < 6 == grow:
+					o = []c07op{qAdd, qPush}[r.IntN(2)]
+					if x%3 == 0 {
+						o = qAdd
+					}
+					length++
+				default:
+					o = []c07op{qPop, qPopLast}[r.IntN(2)]
+					if length > 0 {
+						length--
+					}
+				}
+				ops = append(ops, o)
+			}
+			if r.IntN(4000) == 0 {
+				ops = append(ops, c07op(4)) // Clear
+				length = 0
+			}
+		}
+		okRun, pv, stack := fw.Try(func() { c07runMode(c, ctor, ops, true, true) })
+		if !okRun {
+			c.FailKind("panic", map[string]any{"ctor": ctor, "nops": len(ops), "phase": "long-lived queue"}, "panic: %v\n%s", pv, stack)
+		}
+		c.Add("long_lived_queue_runs", 1)
 	}
 }
